@@ -16,6 +16,7 @@ typedef struct ptg_class {
     const char *fnames[PTG_MAX_FLOWS];
     void (*enumerate)(const int *G, ptg_inst_cb cb, void *u);
     void (*deps)(const int *G, const int *P, ptg_dep_cb cb, void *u);
+    int param_local_idx[PTG_MAX_PARAMS];   /* position of each parameter among the task's locals (wire format) */
 } ptg_class_t;
 typedef struct ptg_ref {
     const char *name;
